@@ -27,7 +27,9 @@ RULE = ("inject: for every catalogued (operator, callback) an InjectedError rais
         "Subjects (escape = exception out of subject.on_next), hot and cold TestScheduler observables (escape = exception out of the "
         "scheduler), generated timelines for main/second/inner sources; model: finite-table callbacks with raising entries over a Subject "
         "or hot observable for the operators modelled in Lean, comparing timed output and escapes. non-trivial = the injected/raising "
-        "callback invocation actually happened")
+        "callback invocation actually happened. group_by(_until) / window_when / window_toggle / group_join also run with a subscriber that "
+        "subscribes to every emitted group/window itself (durations never/long/short, failure at the 2nd+ invocation while earlier groups "
+        "are open, source continuing): after the failure every such group must have terminated and receive nothing more")
 ASSUMPTIONS = [
     "single-threaded / virtual-time execution",
     "downstream (subscriber) callbacks return normally: the property is about user-supplied functions of the pipeline",
@@ -160,6 +162,7 @@ class Ctx:
         self.escaped = []
         self.subjects = []
         self.hots = []
+        self.groups = []
 
     # ---- sources
     def source(self, key):
@@ -198,6 +201,16 @@ class Ctx:
         msgs = [[dt, n] for dt, n in self.case["inner"]]
         return self.sched.create_cold_observable(*C06.recorded(msgs))
 
+    def duration(self):
+        """duration / closing observable for the *_groups entries: never, a long timer, or the generated inner timeline"""
+        import reactivex as rx
+        d = self.case.get("dur", "inner")
+        if d == "never":
+            return rx.never()
+        if d == "long":
+            return rx.timer(400)
+        return self.inner()
+
     def cold(self, key="a"):
         return self.sched.create_cold_observable(*C06.recorded([[max(1, t - 200), n] for t, n in self.case[key]]))
 
@@ -222,6 +235,19 @@ class Ctx:
     # ---- subscriber
     def on_next(self, v):
         self.out.append([int(self.sched.clock), ["N"]])
+        if self.case["entry"] in GROUP_ENTRIES:
+            # the subscriber subscribes to every emitted group / window on its own (not through merge_all): these
+            # subscriptions outlive the outer one and keep the operator's RefCountDisposable alive
+            inner = v[1] if isinstance(v, tuple) else v
+            g = {"opened": int(self.sched.clock), "log": [], "terminated": False}
+            self.groups.append(g)
+
+            def term(kind):
+                def f(*a):
+                    g["terminated"] = True
+                    g["log"].append([int(self.sched.clock), kind])
+                return f
+            inner.subscribe(lambda x: g["log"].append([int(self.sched.clock), "N"]), term("E"), term("C"), scheduler=self.sched)
 
     def on_error(self, e):
         self.terminated = True
@@ -300,6 +326,12 @@ def catalogue():
     single("group_by_until", ["key_mapper", "element_mapper", "duration_mapper"],
            lambda c: rx.compose(ops.group_by_until(c.cb("key_mapper", lambda x: x % 2), c.cb("element_mapper", lambda x: x),
                                                    c.cb("duration_mapper", lambda g: c.inner())), ops.merge_all()))
+    single("group_by_groups", ["key_mapper", "element_mapper", "subject_mapper"],
+           lambda c: ops.group_by(c.cb("key_mapper", lambda x: x % 3), c.cb("element_mapper", lambda x: x), c.cb("subject_mapper", lambda: Subject())))
+    single("group_by_until_groups", ["key_mapper", "element_mapper", "duration_mapper", "subject_mapper"],
+           lambda c: ops.group_by_until(c.cb("key_mapper", lambda x: x % 3), c.cb("element_mapper", lambda x: x),
+                                        c.cb("duration_mapper", lambda g: c.duration()), c.cb("subject_mapper", lambda: Subject())))
+    single("window_when_windows", ["closing_mapper"], lambda c: ops.window_when(c.cb("closing_mapper", lambda: rx.timer(12))))
     single("partition", ["predicate"], lambda c: (lambda src: rx.merge(*ops.partition(c.cb("predicate", lambda x: x != 1))(src))))
     single("flat_map", ["mapper"], lambda c: ops.flat_map(c.cb("mapper", lambda x: c.inner())))
     single("flat_map_indexed", ["mapper"], lambda c: ops.flat_map_indexed(c.cb("mapper", lambda x, i: c.inner())))
@@ -318,6 +350,10 @@ def catalogue():
     single("buffer_when", ["closing_mapper"], lambda c: ops.buffer_when(c.cb("closing_mapper", lambda: rx.timer(25))))
     E["window_toggle"] = (["closing_mapper"], lambda c: c.source("a").pipe(
         ops.window_toggle(c.source("b"), c.cb("closing_mapper", lambda x: rx.timer(15))), ops.merge_all()))
+    E["window_toggle_windows"] = (["closing_mapper"], lambda c: c.source("a").pipe(
+        ops.window_toggle(c.source("b"), c.cb("closing_mapper", lambda x: c.duration()))))
+    E["group_join_windows"] = (["left_duration_mapper", "right_duration_mapper"], lambda c: c.source("a").pipe(
+        ops.group_join(c.source("b"), c.cb("left_duration_mapper", lambda x: c.duration()), c.cb("right_duration_mapper", lambda x: c.duration()))))
     E["buffer_toggle"] = (["closing_mapper"], lambda c: c.source("a").pipe(
         ops.buffer_toggle(c.source("b"), c.cb("closing_mapper", lambda x: rx.timer(15)))))
     E["group_join"] = (["left_duration_mapper", "right_duration_mapper"], lambda c: c.source("a").pipe(
@@ -353,6 +389,7 @@ def catalogue():
 
 
 NEEDS_ERROR_SOURCE = {"catch_handler", "on_error_resume_next"}
+GROUP_ENTRIES = {"group_by_groups", "group_by_until_groups", "window_when_windows", "window_toggle_windows", "group_join_windows"}
 _CAT_NAMES = None
 
 
@@ -363,10 +400,10 @@ def cat_names():
     return _CAT_NAMES
 
 
-def gen_timeline(rng, force_error=False, maxlen=6, force_complete=False):
+def gen_timeline(rng, force_error=False, maxlen=6, force_complete=False, minlen=1):
     t = 200
     msgs = []
-    for _ in range(rng.choice([1, 2, 3, 4, 5, maxlen])):
+    for _ in range(max(minlen, rng.choice([1, 2, 3, 4, 5, maxlen]))):
         t += rng.choice([1, 5, 10, 10, 15])
         msgs.append([t, ["N", rng.choice([0, 1, 2, 3, 3])]])
     t += rng.choice([1, 10, 20])
@@ -395,6 +432,13 @@ def gen_inject(rng, entry, cbname):
          "b": gen_timeline(rng), "inner": inner}
     if entry == "generate_with_relative_time":
         c["delay"] = rng.choice([0, 0, 5, 10])
+    if entry in GROUP_ENTRIES:
+        # the failure has to come while an earlier group/window is still open and subscribed, and the source must go on
+        c["k"] = rng.choice([0, 1, 1, 1, 2, 2, 3])
+        c["dur"] = rng.choice(["never", "never", "long", "inner"])
+        c["mode"] = rng.choice(["subject", "hot", "hot"])
+        c["a"] = gen_timeline(rng, maxlen=9, minlen=4)
+        c["b"] = gen_timeline(rng, maxlen=9, minlen=4)
     return c
 
 
@@ -406,7 +450,7 @@ def cases(rng, tier):
     per_cb = fw.tier_scale(tier, 14, 150)
     for entry, cbs in cat_names().items():
         for cbname in cbs:
-            for _ in range(per_cb):
+            for _ in range(per_cb * (3 if entry in GROUP_ENTRIES else 1)):
                 yield gen_inject(rng, entry, cbname)
 
 
@@ -440,7 +484,7 @@ def _run_inject(case):
             open_subs.append([int(s.subscribe), None if s.unsubscribe >= INF else int(s.unsubscribe)])
     st = ctx.st
     return {"out": ctx.out, "escaped": ctx.escaped, "fired": st["fired"], "fired_at": st["fired_at"], "term_before": st["term_before"],
-            "calls_after_fire": st["after"], "calls": st["calls"], "subs": open_subs}
+            "calls_after_fire": st["after"], "calls": st["calls"], "subs": open_subs, "groups": ctx.groups}
 
 
 def _with_alarm(fn, arg, secs):
@@ -500,6 +544,16 @@ def oracle(case, out):
         for sub, unsub in out["subs"]:
             if unsub is None or unsub > out["fired_at"]:
                 return f"source subscription {sub}..{unsub} not released at the failure (@{out['fired_at']})"
+        for i, g in enumerate(out.get("groups", [])):
+            late = [x for x in g["log"] if x[0] > out["fired_at"]]
+            if not g["terminated"]:
+                return f"group/window {i} (opened @{g['opened']}) subscribed by the subscriber never terminated after the failure @{out['fired_at']}: {g['log'][-3:]}"
+            if late:
+                return f"group/window {i} still received {late[:3]} after the failure @{out['fired_at']}"
+    for i, g in enumerate(out.get("groups", [])):
+        kinds = [x[1] for x in g["log"]]
+        if any(k in ("E", "C") for k in kinds[:-1]):
+            return f"group/window {i} saw an ill-formed sequence {g['log']}"
     return None
 
 
@@ -527,6 +581,8 @@ def bucket(case, out):
     yield "mode:" + case.get("mode", "hot")
     if case["kind"] == "inject":
         yield "entry:" + case["entry"]
+        if out.get("groups") and out["fired"] and any(g["opened"] < out["fired_at"] for g in out["groups"]):
+            yield "fired-with-open-subscribed-group"
         yield "fired" if out["fired"] else "not-fired"
         if out["fired"]:
             yield "fired:" + ("after-terminal" if out["term_before"] else "live")
